@@ -12,8 +12,14 @@ func deleteChildOperator(d *dataTreeNavigator, context Context, expressionNode *
 		return Context{}, err
 	}
 	//need to iterate backwards to ensure correct indices when deleting multiple
+	alreadyDeleted := make(map[*CandidateNode]bool)
 	for el := nodesToDelete.MatchingNodes.Back(); el != nil; el = el.Prev() {
 		candidate := el.Value.(*CandidateNode)
+		if alreadyDeleted[candidate] {
+			// selected more than once (e.g. del(.[0], .[0])): delete it once only
+			continue
+		}
+		alreadyDeleted[candidate] = true
 
 		if candidate.Parent == nil {
 			// must be a top level thing, delete it
